@@ -14,7 +14,7 @@ use crate::{
     packet,
     packet::{Features, KeyFlags, PacketTrait, SignatureVersion},
     ser::Serialize,
-    types::{PacketLength, SignedUser, SignedUserAttribute, VerifyingKey},
+    types::{SignedUser, SignedUserAttribute, VerifyingKey},
 };
 
 /// Shared details between secret and public keys.
@@ -275,15 +275,11 @@ impl Serialize for SignedKeyDetails {
     fn write_len(&self) -> usize {
         let mut sum = 0;
         for sig in &self.revocation_signatures {
-            let len = sig.write_len().try_into().expect("signature size");
-            sum += PacketLength::fixed_encoding_len(len);
-            sum += len as usize;
+            sum += sig.write_len_with_header();
         }
 
         for sig in &self.direct_signatures {
-            let len = sig.write_len().try_into().expect("signature size");
-            sum += PacketLength::fixed_encoding_len(len);
-            sum += len as usize;
+            sum += sig.write_len_with_header();
         }
 
         for user in &self.users {
